@@ -126,11 +126,11 @@ def gen_numarr_case(rng):
 def generate(ctx):
     rng = ctx.rng
     cases = []
-    for _ in range(ctx.n(170, 3000)):
+    for _ in range(ctx.n(420, 5000)):
         cases.append(gen_survey_case(rng))
-    for _ in range(ctx.n(50, 600)):
+    for _ in range(ctx.n(120, 1200)):
         cases.append(gen_survey_case(rng, strand=True))
-    for _ in range(ctx.n(60, 800)):
+    for _ in range(ctx.n(150, 1500)):
         cases.append(gen_numarr_case(rng))
     return cases
 
